@@ -17,8 +17,8 @@ A_HASH = "A-hash: hash_key (salted Blake2b / SipHash) is injective on the keys o
 A_COMPRESS = "A-compress: decompress(compress v) = v for lz4 / snappy (exercised by every round trip in the runs)"
 P2_GAP = ("physical layers below the logical pipeline: for hash columns of every kind (plain, preimage, ref-counted) the index pages + byte-level value "
           "tables (single-slot values and multipart chains alike, stored counters with saturation) refine P1's logical table (Pdb/Props/Refine.lean "
-          "R1-R4, R3_composed_full; Pdb/Props/RefineRc.lean R5_rc_refines, conditional on the physical run returning ok within the physical limits: trajectory hypotheses, established by evaluation for the example histories incl. ref-counted multipart values; no totality theorem for the physical column; A-tail and the two C09 fixes are needed, findings F28 / F29 apply); btree / multitree columns and the WAL byte format are tied to P1 by "
-          "correspondence only")
+          "R1-R4, R3_composed_full; Pdb/Props/RefineRc.lean R5_rc_refines, with totality from input hypotheses: R3_total / R5_total, Pdb/Props/RefineTotal.lean, RefineRcTotal.lean; A-tail and the two C09 fixes are needed there, finding F28 applies); the log record as location writes incl. torn replay and the WAL codec bridge: R7 (Pdb/Props/PhysRec*.lean); multitree columns: R6 (Pdb/Props/RefineMt.lean, step theorems) and C02xTx; btree columns: R8 (Pdb/Props/RefineBt.lean; restructuring transactions under R8_tx_partial's hypothesis); the remaining gaps are listed in "
+          "DESIGN 13.7")
 
 P1_RULE = ("histories generated from one SplitMix64 state: commits of 1..6 ops over 1..3 columns and a small key pool "
            "(repeated keys, removals, invalid ops ~3%), interleaved with process / flush / enactall / clean / reindex / "
@@ -809,3 +809,72 @@ PROPS = {
         "trusted": ["hook Db::verif_dump (cfg pdb_verif)", "hook Db::verif_multitree_dump (cfg pdb_verif)"],
     },
 }
+
+
+# ---------------------------------------------------------------------------------------------------------------------
+# Round 3 (DESIGN 13.6): what was added to each property, appended to the texts above
+_R7 = ("R7 (Props/PhysRec*.lean): the physical log record of a transaction as a list of absolute after-images of locations, read off the physical "
+       "runs pRun / rRun: R7_frame, R7_full (+ _grow), R7_redo / R7_redo_seq / R7_redo_history (enactment torn after any number of writes + replay "
+       "from any start at or before the torn record = all records once), R7_codec and C02_phys_replay_prefix (Wal.replayOpenWith on the encoded "
+       "physical records over a torn crash state reads as Pdb.spec of a prefix); tie physrec: the record the crate WROTE to its log file equals "
+       "planWrites byte for byte, executable R7_redo on every record, crate-side torn enactment.")
+_R3T = ("Totality (Props/RefineTotal.lean, RefineRcTotal.lean): R3_total / R3_composed_total / R5_total / R5_composed_total: from INPUT hypotheses "
+        "only (PInputOK / RInputOK, decidable) the physical run of the hash column is .ok and reads (value and stored counter) equal Pdb.spec; "
+        "tie: `r5 total` at the end of every case.")
+_T0S = ("T0 storage layer (tools/rs2lean_storage.py -> Gen/Storage.lean, Proofs/OrderStorage*.lean): statement skeletons of 33 functions of "
+        "column.rs / table.rs / index.rs / btree/node.rs regenerated on every run; for next_free / read_next_free / clear_slot / "
+        "write_remove_plan the generated statement tree is executed and proved EQUAL to the model function; the rest pinned next to model equations.")
+_R3 = {
+    "C01": _R3T + " " + _T0S,
+    "C02": _R7 + (" C02xTx (Props/C02xTx.lean): crash recovery of MULTI-OPERATION tree transactions with address reuse over the unchanged C10 "
+                  "transaction model: C02xTx_recover_prefix, _tx_read_back, _idempotent, _replay_absorbs, _continues, and F19 as a theorem with both "
+                  "bounds (C02xTx_leak_exactly_F19); tie: c02x tx cases replayed by driver c02xt, the MODEL computes the recovered prefix from the "
+                  "surviving log files and predicts every F19 leak exactly."),
+    "C03": ("T3 (Props/T3.lean): every journal of a real threaded run ends with the clean shutdown, a reopen without workers and a read of every key; "
+            "accepted journals are traces of the LTS (T3_sound, T3_pipe_drop_persists)."),
+    "C04": ("R8 (Props/RefineBt.lean, model Model/BTreePhys.lean): the btree column on byte-level value tables (header entry, encoded nodes, values): "
+            "R8_get (descent through decoded nodes = abstract nodeGet for every key), R8_step_*, R8_joint_* (every slot is header / part of one "
+            "reachable node / part of one referenced value / free), R8_set_existing; R8_tx_partial for restructuring transactions under a visible "
+            "hypothesis; tie `c04b phys`: the model rebuilds its column from the RAW SLOTS of the real tables. Harness c05bt: stable keys read by "
+            "threads while the tree is restructured around them."),
+    "C05": ("C05_slot_refines (Props/C05SlotRefine.lean): every slot-level run (slot reuse, chunk rewrites) is simulated by the key-level LTS; the "
+            "slot-level model is executed against the crate (harness c05s: reads, index-entry addresses, fill marks, free-list heads, raw slots "
+            "predicted, observation points inside a half-enacted record by hook 754005b). T3 (Props/T3.lean): journals of REAL multi-threaded runs "
+            "(four workers, clients, readers; hook 7883075) are accepted by an executable acceptor proved sound for the LTS (T3_sound, "
+            "T3_linearizable, T3_never_back_in_time). T0 Ord.btree_reads_hold_log_overlay_guard + harness c05bt for btree point reads."),
+    "C06": _R3T + " " + _T0S + " R8 (Props/RefineBt.lean): the same tables under btree columns (R8_step_*, ColInv).",
+    "C07": ("Value iteration on bytes (Props/C07Iter.lean): C07_scan_exact (the scan of a byte-level table under SlotInv reports exactly the live "
+            "chain heads, once, in index order, with readChain's bytes and the stored counter), C07_iter_spec (scan over all tiers = keys of positive "
+            "count with value and count of Pdb.spec), early stop; tie: r5 / c06 lines iter, iterd, iterstop against the real iter_column_while. "
+            + _R3T + " " + _T0S),
+    "C09": ("NoStale (Props/C09NoStale.lean): for the fixed code every entry of every index table points to a live slot whose stored tail matches "
+            "(NoStale_run, no A-tail, no key universe); C09_lookup_latest_notail: the read theorem WITHOUT the A-tail hypothesis; "
+            "C09_collision_individual_notail; tie: `t2 nostale` (checkNoStale, proved sound) on every index dump. " + _T0S),
+    "C10": ("R6 (Props/RefineMt.lean, model Model/MultiTreePhys.lean): the physical multitree column (one byte-level table per size tier shared by "
+            "node slots and root values, node bytes, Address.new, per-tier LIFO free lists, claims at commit / writes at process) is simulated by "
+            "the C10 heap: R6_claim(_tree), R6_newValue, R6_deref_*, R6_setRoot_*, R6_read_back, R6_slot_inv, R6_last_deref_all_free, R6_codec_*; "
+            "tie mtphys: real ADDRESSES, raw slot bytes, headers, ref counts predicted. C02xTx: crash recovery of multi-operation tree "
+            "transactions with reuse (see C02). " + _T0S),
+    "C12": _R7,
+    "C13": _R7,
+    "C14": ("R6_slot_inv (multitree tables), R8_joint_* (btree columns: slot and tree invariant jointly), C07_scan_exact / "
+            "C14_iter_each_live_value_once (iteration on bytes), NoStale_run / C14_no_misattribution_nostale (no A-tail), "
+            "C02xTx_leak_exactly_F19 (slot accounting after a crash); ties: mtphys, c04b phys, t2 nostale. " + _T0S),
+    "C15": ("T3, worker side (Model/JournalPipe.lean, Props/T3.lean): the journals of real threaded runs are replayed on this LTS: T3_pipe_sound, "
+            "T3_pipe_drop_persists; 40 model-compared journals per quick run."),
+    "C17": ("LockDir_admin_while_held / LockDir_stable_while_held (Props/C18Exec.lean): the administration calls are refused with Locked and change "
+            "nothing while a handle is alive; crash images with an empty log file: a refused open must leave it alone."),
+    "C18": ("Executable layer (Props/C18Exec.lean): Pdb.LockDir, a state machine of one directory shared by several processes whose open / drop "
+            "interpret the generated programs: LockDir_mutex, _failed_open_noop, _open_while_held, _admin_while_held, _reopen_after_drop_or_kill for "
+            "all operation sequences, LockDir_refines_interleaving; every harness case replays a scripted operation sequence over 2-4 child "
+            "processes through the compiled machine (150 model-compared cases per quick run); read-only opens probed."),
+    "C20": ("C20_walk_nostale_dump (Props/C20NoStale.lean): on a dump accepted by checkNoStale the index walk does not fail and every reported item "
+            "is a live value under its owner's key bits."),
+}
+for _k, _v in _R3.items():
+    PROPS[_k]["level_text"] = PROPS[_k]["level_text"] + " ROUND 3: " + _v
+PROPS["C18"]["level_note"] = PROPS["C18"]["level_note"] + " The racy scenarios stay oracle-only inside each case."
+PROPS["C05"]["trusted"] = PROPS["C05"].get("trusted", []) + ["hook lib.rs verif::{set_event_hook, event} + 8 call sites (cfg pdb_verif, 7883075)",
+                                                             "hook db.rs enact_logs: yield point enact_logs.before_action (cfg pdb_verif, 754005b)"]
+PROPS["C15"]["trusted"] = PROPS["C15"].get("trusted", []) + ["hook lib.rs verif::{set_event_hook, event} (cfg pdb_verif, 7883075)"]
+TRUSTED_BASE.append("tools/rs2lean_storage.py (statement skeletons of the storage layer regenerated on every run; tools/t0_mutate.py: 188 edits)")
